@@ -6,8 +6,65 @@ use duke::verif::reader::Pool;
 /// JVMS 4.4: size of the entry body after the tag byte, and whether it takes two slots.
 fn body(tag: u8) -> (usize, bool) { match tag { 3 | 4 => (4, false), _ => (8, true) } }
 
+//# {"id":"c01_pool_method_handle","props":["C01","C16"],"tier":"quick","cap":1500,"lib":"verif","bound":"a concrete 11-entry pool (Utf8 A f I ()V, Class, two NameAndType, FieldRef, MethodRef, InterfaceMethodRef) whose last entry is a MethodHandle with SYMBOLIC reference_kind (all 256 values) and SYMBOLIC reference_index (0..=12): get_loadable must yield the JVMS 4.4.8 handle kind for the kind/reference combination and an error otherwise; unwind 14","fns":["PoolRead::{read,get_loadable,get_method_handle}","PoolEntry::{as_loadable,as_method_handle,as_field_ref,as_method_ref,as_interface_method_ref,as_method_ref_or_interface_method_ref}","duke::jstring::from_vec_to_string"]}
 //# {"id":"c01_pool_numeric","props":["C01","C16"],"tier":"quick","cap":1200,"bound":"constant_pool_count in 0..=4 (symbolic), first entry Integer/Float/Long/Double with symbolic payload, second entry Integer/Float, buffer possibly truncated by 0..=2 bytes; every index 0..=5 through every numeric getter; unwind 12","fns":["duke::class_reader::pool::PoolRead::{read,get,get_integer,get_long,get_float,get_double}","duke::ClassRead::{read_u8,read_u16,read_i32,read_i64,read_u32,read_u64}"]}
 proofs! {
+	#[cfg_attr(kani, kani::unwind(14))]
+	fn c01_pool_method_handle() {
+		use duke::tree::method::code::{Handle, Loadable};
+		let kind = sym::u8();
+		let refidx = sym::u8_in(0, 12);
+		#[rustfmt::skip]
+		let buf: [u8; 57] = [
+			0, 12,                       // constant_pool_count
+			1, 0, 1, b'A',               //  1 Utf8 "A"
+			7, 0, 1,                     //  2 Class #1
+			1, 0, 1, b'f',               //  3 Utf8 "f"
+			1, 0, 1, b'I',               //  4 Utf8 "I"
+			12, 0, 3, 0, 4,              //  5 NameAndType f:I
+			9, 0, 2, 0, 5,               //  6 Fieldref A.f:I
+			1, 0, 3, b'(', b')', b'V',   //  7 Utf8 "()V"
+			12, 0, 3, 0, 7,              //  8 NameAndType f:()V
+			10, 0, 2, 0, 8,              //  9 Methodref A.f()V
+			11, 0, 2, 0, 8,              // 10 InterfaceMethodref A.f()V
+			15, kind, 0, refidx,         // 11 MethodHandle
+			0, 0, 0, 0, 0,
+		];
+		let (pool, consumed) = Pool::read(&buf[..52]).expect("a well-formed pool must be read");
+		assert!(consumed == 52, "the reader must consume exactly the pool");
+		let r = pool.get_loadable(11);
+		// JVMS 4.4.8: kinds 1-4 need a Fieldref; 5 and 8 a Methodref; 6 and 7 a Methodref or an InterfaceMethodref; 9 an InterfaceMethodref
+		let is_f = refidx == 6; let is_m = refidx == 9; let is_i = refidx == 10;
+		let want: Option<u8> = match kind {
+			1..=4 => if is_f { Some(kind) } else { None },
+			5 | 8 => if is_m { Some(kind) } else { None },
+			6 | 7 => if is_m || is_i { Some(kind) } else { None },
+			9 => if is_i { Some(kind) } else { None },
+			_ => None,
+		};
+		match (&r, want) {
+			(Err(_), None) => {},
+			(Ok(Loadable::MethodHandle(h)), Some(k)) => {
+				let got = match h {
+					Handle::GetField(_) => 1, Handle::GetStatic(_) => 2, Handle::PutField(_) => 3, Handle::PutStatic(_) => 4,
+					Handle::InvokeVirtual(_) => 5, Handle::InvokeStatic(..) => 6, Handle::InvokeSpecial(..) => 7, Handle::NewInvokeSpecial(_) => 8, Handle::InvokeInterface(_) => 9,
+				};
+				assert!(got == k, "reference_kind decoded to the wrong handle kind (JVMS table 5.4.3.5-A)");
+				match h {
+					Handle::InvokeStatic(_, itf) | Handle::InvokeSpecial(_, itf) => assert!(*itf == is_i, "interface flag must say whether the reference is an InterfaceMethodref"),
+					_ => {},
+				}
+			},
+			(Ok(_), Some(_)) => panic!("a MethodHandle entry was loaded as something else"),
+			(Ok(_), None) => panic!("an ill-kinded MethodHandle (kind / reference mismatch, unknown kind, dangling index) was accepted"),
+			(Err(_), Some(_)) => panic!("a well-formed MethodHandle was rejected"),
+		}
+		witness!(want == Some(4), "REF_putStatic");
+		witness!(want == Some(7) && is_i, "REF_invokeSpecial on an interface method");
+		witness!(kind == 9 && is_m, "REF_invokeInterface on a Methodref (rejected)");
+		core::mem::forget(r); core::mem::forget(pool);
+	}
+
 	#[cfg_attr(kani, kani::unwind(12))]
 	fn c01_pool_numeric() {
 		let t1 = sym::u8_in(3, 6);
